@@ -30,6 +30,7 @@ var coarseSq = map[string]string{
 var coarseSym = map[string]string{
 	"distinct": "distinct", "zero-eig": "distinct", "indefinite": "distinct", "small-int": "distinct", "graded": "graded", "gram": "distinct", "zero-row-col": "distinct",
 	"repeated": "repeated", "clustered": "clustered", "identity": "already-reduced", "diagonal": "already-reduced", "tridiagonal": "already-reduced",
+	"early-offdiag": "graded",
 }
 
 var coarseTall = map[string]string{
@@ -51,27 +52,60 @@ func twoCalls(cs *fw.Case, routine string, t elemT, fine, coarse string, inputs 
 	for k := 0; k < n; k++ {
 		A := inputs[k]
 		v, of, om := call(A, k, !inSitu)
+		if vx.on {
+			cs.Cover("view:" + routine + "/input=" + vx.inputKind)
+			if k == 0 && inSitu {
+				for name, kind := range vx.kinds {
+					cs.Cover("view:" + routine + "/" + name + "=" + kind)
+				}
+			}
+			if s := viewComplaint(); s != "" && v.Kind == "" && v.Skip == "" {
+				v = verdict{Kind: "parent-outside-view-modified", Detail: s, Wit: map[string]any{"guard": s}}
+			}
+			if v.Skip == "" {
+				cs.Cover("judged-views:" + routine)
+			}
+		}
 		class := coarse
-		if A.R == 1 && A.C == 1 {
+		if A.R == 1 && A.C == 1 && coarse != "unrequested-Eigenvectors-buffer" {
 			class = "1x1"
 		}
 		if inSitu {
 			of += "+InSitu"
 			cs.Cover(fmt.Sprintf("insitu:%s/%s", routine, []string{"first-use", "reused"}[k]))
-			if v.Kind != "" {
-				if v2, _, _ := call(A, k, true); v2.Kind != v.Kind {
-					class += []string{",InSitu-first-use", ",InSitu-reused"}[k]
-				} else {
+		}
+		if v.Kind != "" && (inSitu || vx.on) {
+			// control: the same input with fresh, owning operands
+			vx.suspended = true
+			v2, _, _ := call(A, k, true)
+			vx.suspended = false
+			vx.inGuards = nil
+			switch {
+			case v2.Kind == v.Kind:
+				if inSitu {
 					of = of[:len(of)-len("+InSitu")]
 				}
+			case vx.on:
+				class += ",views"
+				if v.Wit == nil {
+					v.Wit = map[string]any{}
+				}
+				v.Wit["views"] = map[string]any{"input": vx.inputKind, "InSitu": vx.kinds}
+			default:
+				class += []string{",InSitu-first-use", ",InSitu-reused"}[k]
 			}
 		}
 		opts := of
 		if v.Middle {
 			opts = om
 		}
-		if v.Kind == "eigenpairs-misaligned" {
+		switch v.Kind {
+		case "eigenpairs-misaligned":
 			class = "sort-permutation"
+		case "eigenvector-buffer-not-written":
+			class = "caller-supplied-Eigenvectors"
+		case "eigenvector-non-finite(repeated-eigenvalue)":
+			class = "repeated-eigenvalue"
 		}
 		cs.Cover("fine-class:" + routine + "/" + fine)
 		for site := range lastSites {
@@ -105,25 +139,33 @@ func firstOpt(o string) string {
 
 func Run(c *fw.Ctx) {
 	/* cholesky: plain, LDL, LDL+ForcePD */
-	c.Cases("cholesky", c.N(3600, 80000), func(cs *fw.Case) {
+	c.Cases("cholesky", c.N(5400, 120000), func(cs *fw.Case) {
 		r := cs.R
-		t := types[cs.Index%2]
-		mode := []string{"plain", "LDL", "LDL+ForcePD"}[(cs.Index/2)%3]
-		n := 1 + (cs.Index/6)%7
-		fine := spdClasses[(cs.Index/42)%len(spdClasses)]
+		beginViews(cs, 0.3)
+		t := cholTypes[cs.Index%len(cholTypes)]
+		mode := []string{"plain", "LDL", "LDL+ForcePD"}[(cs.Index/len(cholTypes))%3]
+		n := 1 + (cs.Index/(3*len(cholTypes)))%7
+		fine := spdClasses[(cs.Index/(21*len(cholTypes)))%len(spdClasses)]
 		spd := true
-		if mode == "LDL+ForcePD" && r.Chance(0.6) {
+		if mode == "LDL+ForcePD" && r.Chance(0.5) {
 			fine = symClasses[r.Intn(len(symClasses))]
 			spd = false
 		}
 		inSitu := r.Chance(0.35)
-		inputs := []*la.Mat{genSym(fine, n, spd, 1e6, r), genSym(fine, n, spd, 1e6, r)}
+		kmax := 1e6
+		if t.Eps > 1e-10 {
+			kmax = 1e3
+		}
+		inputs := []*la.Mat{image(t, genSym(fine, n, spd, kmax, r)), image(t, genSym(fine, n, spd, kmax, r))}
+		for _, a := range inputs {
+			a.Symmetrize()
+		}
 		coarse := coarseSym[fine]
 		if !spd {
 			coarse = "symmetric-indefinite-or-any"
 		}
-		is := &cholesky.InSitu{}
-		if sampleWorthy(map[string]any{"routine": "cholesky", "mode": mode, "type": t.Name, "class": fine, "A": inputs[0].Rows()}) {
+		is := newCholeskyInSitu(t, n, mode, cs)
+		if sampleWorthy(map[string]any{"A": inputs[0].Rows()}) {
 			cs.Sample(map[string]any{"routine": "cholesky", "mode": mode, "type": t.Name, "class": fine, "A": inputs[0].Rows()})
 		}
 		twoCalls(cs, "cholesky", t, fine, coarse, inputs, inSitu, func(A *la.Mat, idx int, fresh bool) (verdict, string, string) {
@@ -138,6 +180,7 @@ func Run(c *fw.Ctx) {
 	/* gramSchmidt */
 	c.Cases("gramSchmidt", c.N(1600, 32000), func(cs *fw.Case) {
 		r := cs.R
+		beginViews(cs, 0.3)
 		t := types[cs.Index%2]
 		n := 1 + (cs.Index/2)%7
 		m := n + []int{0, 0, 1, 3}[r.Intn(4)]
@@ -145,7 +188,7 @@ func Run(c *fw.Ctx) {
 		fine := fineList[(cs.Index/14)%len(fineList)]
 		inSitu := r.Chance(0.35)
 		inputs := []*la.Mat{genTall(fine, m, n, r), genTall(fine, m, n, r)}
-		is := &gramSchmidt.InSitu{}
+		is := newGramSchmidtInSitu(t, m, n)
 		if sampleWorthy(map[string]any{"routine": "gramSchmidt", "type": t.Name, "class": fine, "A": inputs[0].Rows()}) {
 			cs.Sample(map[string]any{"routine": "gramSchmidt", "type": t.Name, "class": fine, "A": inputs[0].Rows()})
 		}
@@ -161,6 +204,7 @@ func Run(c *fw.Ctx) {
 	/* householderBidiagonalization */
 	c.Cases("bidiag", c.N(2800, 56000), func(cs *fw.Case) {
 		r := cs.R
+		beginViews(cs, 0.3)
 		t := types[cs.Index%2]
 		cu, cv := (cs.Index/2)%2 == 0, (cs.Index/4)%2 == 0
 		n := 1 + (cs.Index/8)%7
@@ -168,7 +212,7 @@ func Run(c *fw.Ctx) {
 		fine := tallClasses[(cs.Index/56)%len(tallClasses)]
 		inSitu := r.Chance(0.35)
 		inputs := []*la.Mat{genTall(fine, m, n, r), genTall(fine, m, n, r)}
-		is := &householderBidiagonalization.InSitu{}
+		is := newBidiagInSitu(t, m, n)
 		if sampleWorthy(map[string]any{"routine": "householderBidiagonalization", "type": t.Name, "class": fine, "ComputeU": cu, "ComputeV": cv, "A": inputs[0].Rows()}) {
 			cs.Sample(map[string]any{"routine": "householderBidiagonalization", "type": t.Name, "class": fine, "ComputeU": cu, "ComputeV": cv, "A": inputs[0].Rows()})
 		}
@@ -184,13 +228,14 @@ func Run(c *fw.Ctx) {
 	/* householderTridiagonalization */
 	c.Cases("tridiag", c.N(1600, 32000), func(cs *fw.Case) {
 		r := cs.R
+		beginViews(cs, 0.3)
 		t := types[cs.Index%2]
 		cu := (cs.Index/2)%2 == 0
 		n := 1 + (cs.Index/4)%7
 		fine := symClasses[(cs.Index/28)%len(symClasses)]
 		inSitu := r.Chance(0.35)
 		inputs := []*la.Mat{genSym(fine, n, false, 1e6, r), genSym(fine, n, false, 1e6, r)}
-		is := &householderTridiagonalization.InSitu{}
+		is := newTridiagInSitu(t, n)
 		if sampleWorthy(map[string]any{"routine": "householderTridiagonalization", "type": t.Name, "class": fine, "ComputeU": cu, "A": inputs[0].Rows()}) {
 			cs.Sample(map[string]any{"routine": "householderTridiagonalization", "type": t.Name, "class": fine, "ComputeU": cu, "A": inputs[0].Rows()})
 		}
@@ -206,6 +251,7 @@ func Run(c *fw.Ctx) {
 	/* hessenbergReduction */
 	c.Cases("hessenberg", c.N(2000, 40000), func(cs *fw.Case) {
 		r := cs.R
+		beginViews(cs, 0.3)
 		t := types[cs.Index%2]
 		cu := (cs.Index/2)%2 == 0
 		n := 1 + (cs.Index/4)%7
@@ -213,7 +259,7 @@ func Run(c *fw.Ctx) {
 		setZero := r.Chance(0.7)
 		inSitu := r.Chance(0.35)
 		in1, in2 := genSquare(fine, n, r), genSquare(fine, n, r)
-		is := &hessenbergReduction.InSitu{}
+		is := newHessenbergInSitu(t, n)
 		if sampleWorthy(map[string]any{"routine": "hessenbergReduction", "type": t.Name, "class": fine, "ComputeU": cu, "SetZero": setZero, "A": in1.A.Rows()}) {
 			cs.Sample(map[string]any{"routine": "hessenbergReduction", "type": t.Name, "class": fine, "ComputeU": cu, "SetZero": setZero, "A": in1.A.Rows()})
 		}
@@ -230,6 +276,7 @@ func Run(c *fw.Ctx) {
 	/* qrAlgorithm (Francis / symmetric) */
 	c.Cases("qrAlgorithm", c.N(5600, 120000), func(cs *fw.Case) {
 		r := cs.R
+		beginViews(cs, 0.3)
 		t := types[cs.Index%2]
 		o := qrOpts{CU: (cs.Index/2)%2 == 0, Sym: (cs.Index/4)%3 == 0}
 		n := 1 + (cs.Index/12)%7
@@ -246,11 +293,14 @@ func Run(c *fw.Ctx) {
 		} else {
 			fine = sqClasses[(cs.Index/84)%len(sqClasses)]
 			coarse = coarseSq[fine]
+			if fine == "rot2x2" {
+				n = 2
+			}
 			for k := range ins {
 				ins[k] = genSquare(fine, n, r)
 			}
 		}
-		is := &qrAlgorithm.InSitu{}
+		is := newQRInSitu(t, n)
 		cs.Cover("epsilon:qrAlgorithm/" + epsLabel(o.Eps))
 		if sampleWorthy(map[string]any{"routine": "qrAlgorithm", "type": t.Name, "class": fine, "opts": o.String(), "epsilon": epsLabel(o.Eps), "A": ins[0].A.Rows()}) {
 			cs.Sample(map[string]any{"routine": "qrAlgorithm", "type": t.Name, "class": fine, "opts": o.String(), "epsilon": epsLabel(o.Eps), "A": ins[0].A.Rows()})
@@ -269,6 +319,7 @@ func Run(c *fw.Ctx) {
 	/* eigensystem */
 	c.Cases("eigensystem", c.N(5600, 120000), func(cs *fw.Case) {
 		r := cs.R
+		beginViews(cs, 0.3)
 		t := types[cs.Index%2]
 		o := eigOpts{Vec: (cs.Index/2)%4 != 0, Sym: (cs.Index/8)%3 == 0}
 		n := 1 + (cs.Index/24)%7
@@ -285,11 +336,18 @@ func Run(c *fw.Ctx) {
 		} else {
 			fine = sqClasses[(cs.Index/168)%len(sqClasses)]
 			coarse = coarseSq[fine]
+			if fine == "rot2x2" {
+				n = 2
+			}
 			for k := range ins {
 				ins[k] = genSquare(fine, n, r)
 			}
 		}
-		is := &eigensystem.InSitu{}
+		is := newEigensystemInSitu(t, n)
+		if vx.on && !o.Vec && inSitu {
+			// an eigenvector buffer is supplied although no eigenvectors are requested
+			coarse = "unrequested-Eigenvectors-buffer"
+		}
 		cs.Cover("epsilon:eigensystem/" + epsLabel(o.Eps))
 		if sampleWorthy(map[string]any{"routine": "eigensystem", "type": t.Name, "class": fine, "opts": o.String(), "epsilon": epsLabel(o.Eps), "A": ins[0].A.Rows()}) {
 			cs.Sample(map[string]any{"routine": "eigensystem", "type": t.Name, "class": fine, "opts": o.String(), "epsilon": epsLabel(o.Eps), "A": ins[0].A.Rows()})
@@ -308,6 +366,7 @@ func Run(c *fw.Ctx) {
 	/* svd */
 	c.Cases("svd", c.N(4000, 80000), func(cs *fw.Case) {
 		r := cs.R
+		beginViews(cs, 0.3)
 		t := types[cs.Index%2]
 		cu, cv := (cs.Index/2)%2 == 0, (cs.Index/4)%2 == 0
 		n := 1 + (cs.Index/8)%7
@@ -316,7 +375,7 @@ func Run(c *fw.Ctx) {
 		epsOpt := []float64{0, 0, 1e-12}[r.Intn(3)]
 		inSitu := r.Chance(0.3)
 		inputs := []*la.Mat{genTall(fine, m, n, r), genTall(fine, m, n, r)}
-		is := &svd.InSitu{}
+		is := newSVDInSitu(t, m, n)
 		es := epsLabel(epsOpt)
 		cs.Cover("epsilon:svd/" + es)
 		if sampleWorthy(map[string]any{"routine": "svd", "type": t.Name, "class": fine, "ComputeU": cu, "ComputeV": cv, "epsilon": es, "A": inputs[0].Rows()}) {
@@ -334,6 +393,7 @@ func Run(c *fw.Ctx) {
 	/* msqrt, msqrtInv */
 	c.Cases("msqrt", c.N(1600, 32000), func(cs *fw.Case) {
 		r := cs.R
+		beginViews(cs, 0.3)
 		t := types[cs.Index%2]
 		inverse := (cs.Index/2)%2 == 1
 		n := 1 + (cs.Index/4)%6
